@@ -248,6 +248,15 @@ def check_reduce(rec, B, N, H, tol=None):
     rec.check("reduce.merge", len(set(keys)) == len(keys) and set(keys) <= in_keys and kind_of(B, R) == "poly", case, True,
               observed=describe(B, R, N))
     rec.check("reduce.phases", not np.any(ps), case, phased(B, H), observed=describe(B, R, N))
+    # keep rule: a string whose merged coefficient is clearly above the tolerance must survive
+    merged = {}
+    for g, pph, c in zip(B.np(H.gs).reshape(-1, 2 * N), B.ph(H.ps), B.cnp(H.cs)):
+        merged[tuple(g.tolist())] = merged.get(tuple(g.tolist()), 0) + c * 1j ** int(pph)
+    kept = set(tuple(g.tolist()) for g in gs)
+    margin = 1.01 if B.name == "np" else 1.5
+    lost = [k_ for k_, v in merged.items() if abs(v) > t * margin + (0 if B.name == "np" else 1e-6) and k_ not in kept]
+    rec.check("reduce.keep", not lost, dict(op="reduce", a=case, tol=t), True, expected="terms with |c| > tol kept",
+              observed=[[O.g2s(np.array(k_)), complex(merged[k_])] for k_ in lost][:4])
     ndrop = len(in_keys) - len(keys)
     err = np.abs(dense_of(B, R, N) - E).max()
     fl = 1e-9 if B.name == "np" else 3e-5 * (1 + np.abs(E).max())
@@ -357,6 +366,10 @@ def run_trees(shard, rec, B):
             gs = np.unique(np.stack([gen.rand_string(rng, N) for _ in range(L)]), axis=0)
             cs = np.where(rng.integers(0, 2, len(gs)) == 1, 1e-3 * rng.normal(size=len(gs)), rng.normal(size=len(gs))).astype(complex)
             check_reduce(rec, B, N, B.Poly(gs, rng.integers(0, 4, len(gs)), cs), tol=0.05)
+            # coefficients spread over many decades around the tolerance: kept iff |c| > tol (default and explicit tolerances)
+            dec = (10.0 ** -rng.integers(0, 13, len(gs))) * np.where(rng.integers(0, 2, len(gs)) == 1, 1, -1) * (1 + rng.random(len(gs)))
+            check_reduce(rec, B, N, B.Poly(gs, rng.integers(0, 4, len(gs)), dec.astype(complex)))
+            check_reduce(rec, B, N, B.Poly(gs, rng.integers(0, 4, len(gs)), dec.astype(complex)), tol=10.0 ** -int(rng.integers(2, 9)))
         # linearity of rotations and maps on a polynomial; coefficients untouched
         H = leaf(B, rng, N, "poly", pool)
         hg, hp, hc = B.np(H.gs).reshape(-1, 2 * N).copy(), B.ph(H.ps).copy(), B.cnp(H.cs).copy()
